@@ -1128,3 +1128,36 @@ Section ReplayProofs.
       lia.
   Qed.
 End ReplayProofs.
+
+(* ------------------------------------------------ closed forms used by Properties_C05/C07 *)
+Theorem hash_refines_set : forall (slot_of : rkey -> nat) (nslots : nat), slots_ok slot_of nslots ->
+  rinv slot_of nslots (create nslots) /\ abs (create nslots : rtable) = [] /\
+  forall t : rtable, rinv slot_of nslots t ->
+    NoDup (abs t) /\ count t = N.of_nat (length (abs t)) /\
+    (forall k, replay_find slot_of k t = true <-> In k (abs t)) /\
+    (forall k, let r := replay_insert slot_of k t in
+       rinv slot_of nslots (snd r) /\
+       (fst r = AlreadyExists <-> In k (abs t)) /\ (fst r = Inserted <-> ~ In k (abs t)) /\
+       (fst r = AlreadyExists -> snd r = t) /\
+       (fst r = Inserted -> count (snd r) = count t + 1) /\
+       (forall x, In x (abs (snd r)) <-> x = k \/ In x (abs t))) /\
+    (forall k, let r := replay_remove slot_of k t in
+       rinv slot_of nslots (snd r) /\
+       (fst r = true <-> In k (abs t)) /\ (fst r = false -> snd r = t) /\
+       (fst r = true -> count (snd r) + 1 = count t) /\
+       (forall x, In x (abs (snd r)) <-> x <> k /\ In x (abs t))) /\
+    (forall now, let r := replay_purge now t in
+       rinv slot_of nslots (snd r) /\
+       (forall x, In x (abs (snd r)) <-> In x (abs t) /\ now <= snd x)).
+Proof.
+  intros slot_of nslots Hs. split; [now apply rinv_create|]. split.
+  { unfold abs, create. cbn [chains]. apply concat_repeat_nil. }
+  intros t H. split; [eapply rabs_nodup; eauto|].
+  split; [now destruct H as (_ & _ & E)|].
+  split; [intros k; eapply rfind_spec; eauto|].
+  split; [|split].
+  - intros k. cbv zeta. destruct (rins_spec slot_of nslots Hs t k H) as (I1 & I2 & I3 & I4 & I5).
+    pose proof (rins_new slot_of nslots Hs t k H). auto 10.
+  - intros k. cbv zeta. destruct (rrem_spec slot_of nslots Hs t k H) as (I1 & I2 & I3 & I4 & I5). auto 10.
+  - intros now. cbv zeta. destruct (purge_exact slot_of nslots Hs t now H) as (I1 & _ & I3 & _). auto.
+Qed.
